@@ -27,6 +27,7 @@
 import DisjointImpls.Lemmas.MatchSound
 import DisjointImpls.Lemmas.MatchComplete
 import DisjointImpls.MatchSchema
+import DisjointImpls.Lemmas.MatchTrans
 namespace DI
 
 /-! ## Theorems -/
@@ -285,5 +286,192 @@ theorem C09_every_field_examined :
 
 /-- the set of types with an `impl Superset` is the one the model covers -/
 theorem C09_superset_impls : MatchFacts.supersetMentions.map Prod.fst = MatchSchema.supersetImpls := by decide +kernel
+
+/-! ## Transitivity (`Lemmas/MatchTrans.lean`)
+
+The statement as posed — `sup a b = .yes σ l₁ → sup b c = .yes τ l₂ → ∃ ρ l, sup a c = .yes ρ l` for all trees — is
+FALSE (`C09_trans_counterexample_*` below, some of them with ordinary Rust types). It is proved under executable side
+conditions:
+
+* `okT_tr t` (on `a`, `b`, `c`): outside ignored children, `t` has no node of a kind whose arm is lenient,
+  order-dependent or `unimplemented!()` (`Pat::Wild`, `Stmt::Item`, `Constraint`, `Pat::Struct`, `Pat::TupleStruct`,
+  `Expr::Binary`, `OptWild`), no anonymous lifetime `'_`, no `Path` node that is a lone parameter identifier
+  (the decoder turns those into parameters), a `QSelf` node has no atoms, and its generic arguments have the shapes the
+  matcher inspects literally: `GenericArgument::Const [] [e]` with `e` a proper node (no wrapper, no ignored child),
+  `GenericArgument::Type [] [x]` with `x` a type parameter or a proper node. Transparent wrappers (elsewhere),
+  `Ign` / `IgnL` children, lifetimes, qualified paths `<T as Tr>::A` are allowed.
+* `faces_tr b (stripTop c)`: along the common shape of `b` and `c`, every `Ign` child of `b` faces an `Ign` child of `c`
+  and every `IgnL` child of `b` (leading `::`) faces an identical node.
+* `presInj_tr c`: any two sub-trees of the target `c` (not beneath ignored children) that are equal modulo presentation
+  (`erase`) are equal up to wrappers at their root — `c` does not spell one type in two ways (`Vec<X>` / `Vec::<X>`,
+  `Vec<(X)>` / `Vec<X>`). This is what `Substitutions::merge` needs: it compares bound sub-trees with `==`. -/
+
+/-- TRANSITIVITY of header generalisation on the fragment: if `a` generalises `b` and `b` generalises `c` (whatever
+    the lossy flags), `a` generalises `c`.
+    Side conditions (all executable): `okT_tr` for the three trees, `faces_tr b (stripTop c)`, `presInj_tr c`. -/
+theorem C09_trans (a b c : T) (σ τ : Subst) (l₁ l₂ : Bool) (ha : okT_tr a = true) (hb : okT_tr b = true)
+    (hc : okT_tr c = true) (hf : faces_tr b (stripTop c) = true) (hi : presInj_tr c = true) :
+    sup a b = .yes σ l₁ → sup b c = .yes τ l₂ → ∃ ρ l, sup a c = .yes ρ l :=
+  fun h1 h2 => sup_trans_tr a b c σ τ l₁ l₂ ha hb hc hf hi h1 h2
+
+/-- what the answer of `a → c` is made of: every entry `(n, w)` of it belongs to a parameter `n` that `a → b` bound,
+    say to `v`, and `w` is the image of `v` under the match `b → c` (`Img_tr`): for `v = identity` the entry of `τ`
+    for `n`; for `v = ty t` / `ex t` the sub-tree `c₁` of `c` that `t` was matched against (`identity` if `c₁` is the
+    parameter `n` itself), or the const argument `τ` binds `t = tparam m` to -/
+theorem C09_trans_answer (a b c : T) (σ τ : Subst) (l₁ l₂ : Bool) (ha : okT_tr a = true) (hb : okT_tr b = true)
+    (hc : okT_tr c = true) (hf : faces_tr b (stripTop c) = true) (hi : presInj_tr c = true)
+    (h1 : sup a b = .yes σ l₁) (h2 : sup b c = .yes τ l₂) :
+    ∃ ρ l, sup a c = .yes ρ l ∧
+      ∀ p ∈ ρ, ∃ v, lookup σ p.1 = some v ∧ Img_tr (· ∈ subs_tr c) τ p.1 v p.2 := by
+  have hS := scope_of_tr hc hi
+  unfold sup at h1 h2 ⊢
+  rw [supS_stripTop_tr] at h2
+  exact trans_tr hS a (stripTop b) (stripTop c) σ l₁ τ l₂ ha (okT_stripTop_tr b hb)
+    (hS.strip c (self_mem_subs_tr c)) (stripTop_idem_tr c) h1 h2 (faces_stripTop_tr _ b hf)
+
+section TransExamples
+set_option maxRecDepth 100000
+
+private def lf (s : String) : T := .node s [] []
+private def lt' (x : String) : T := .node "Lifetime" [] [.node "Ident" [x] []]
+/-- `Vec<x>` as the decoder produces it (with the ignored `::` before `<` and the `IgnL` leading colon) -/
+private def vecT (colon2 : T) (x : T) : T :=
+  .node "Type::Path" [] [lf "None", .node "Path" [] [.node "IgnL" [] [lf "None"], .node "List" []
+    [.node "PathSegment" [] [.node "Ident" ["Vec"] [], .node "PathArguments::AngleBracketed" []
+      [.node "Ign" [] [colon2], .node "List" [] [.node "GenericArgument::Type" [] [x]]]]]]]
+private def tup2 (x y : T) : T := .node "Type::Tuple" [] [.node "List" [] [x, y]]
+private def u8 : T := .node "Type::Path" [] [lf "None", .node "Path" [] [.node "IgnL" [] [lf "None"], .node "List" []
+    [.node "PathSegment" [] [.node "Ident" ["u8"] [], lf "PathArguments::None"]]]]
+
+/-- anonymous lifetime: `&'a T ⊒ &'_ T ⊒ &'b T` but `&'a T ⋣ &'b T` -/
+theorem C09_trans_counterexample_lifetime :
+    let a : T := .node "Type::Reference" [] [lt' "a", .tparam "_ŠČ0"]
+    let b : T := .node "Type::Reference" [] [lt' "_", .tparam "_ŠČ0"]
+    let c : T := .node "Type::Reference" [] [lt' "b", .tparam "_ŠČ0"]
+    sup a b = .yes [("_ŠČ0", .identity)] true ∧ sup b c = .yes [("_ŠČ0", .identity)] true ∧ sup a c = .no ∧
+    okT_tr a = true ∧ okT_tr b = false ∧ okT_tr c = true ∧ faces_tr b (stripTop c) = true ∧ presInj_tr c = true := by
+  decide
+
+/-- `_` pattern: anything ⊒ `_` ⊒ anything -/
+theorem C09_trans_counterexample_wild :
+    sup (lf "A") (lf "Pat::Wild") = .yes [] true ∧ sup (lf "Pat::Wild") (lf "B") = .yes [] true ∧
+    sup (lf "A") (lf "B") = .no ∧ okT_tr (lf "Pat::Wild") = false := by decide
+
+/-- swapped operands are tried only when the left operands do not match: `[_; N + 1] ⊒ [_; 2 + 1] ⊒ [_; 1 + 2]` but
+    `[_; N + 1] ⋣ [_; 1 + 2]` (`N ↦ 1` succeeds on the left, then `1` against `2` fails and no swap is tried) -/
+theorem C09_trans_counterexample_binary :
+    let bin (l r : T) : T := .node "Expr::Binary" [] [lf "BinOp::Add", l, r, .node "Ign" [] [lf "List"]]
+    let lit (s : String) : T := .node "Lit" [s] []
+    sup (bin (.eparam "_ŠČ0") (lit "1")) (bin (lit "2") (lit "1")) = .yes [("_ŠČ0", .ex (lit "2"))] false ∧
+    sup (bin (lit "2") (lit "1")) (bin (lit "1") (lit "2")) = .yes [] true ∧
+    sup (bin (.eparam "_ŠČ0") (lit "1")) (bin (lit "1") (lit "2")) = .no ∧
+    okT_tr (bin (lit "2") (lit "1")) = false := by decide
+
+/-- missing turbofish: `x.f::<A>() ⊒ x.f() ⊒ x.f::<B>()` -/
+theorem C09_trans_counterexample_optWild :
+    sup (.node "OptWild" [] [lf "A"]) (.node "OptWild" [] [lf "None"]) = .yes [] true ∧
+    sup (.node "OptWild" [] [lf "None"]) (.node "OptWild" [] [lf "B"]) = .yes [] true ∧
+    sup (.node "OptWild" [] [lf "A"]) (.node "OptWild" [] [lf "B"]) = .no ∧
+    okT_tr (.node "OptWild" [] [lf "None"]) = false := by decide
+
+/-- generic-argument clause of `okT_tr`: the const-argument deviation (path.rs:173-179) looks at the literal shape
+    `GenericArgument::Type [tparam]`: `Foo<(T)> ⊒ Foo<N> ⊒ Foo<3>` but `Foo<(T)> ⋣ Foo<3>` -/
+theorem C09_trans_counterexample_gaWrapper :
+    let a : T := .node "GenericArgument::Type" [] [.node "Type::Paren" [] [.tparam "_ŠČ0"]]
+    let b : T := .node "GenericArgument::Type" [] [.tparam "_ŠČ1"]
+    let c : T := .node "GenericArgument::Const" [] [.node "Expr::Lit" [] [lf "3"]]
+    sup a b = .yes [("_ŠČ0", .ty (.tparam "_ŠČ1"))] false ∧
+    sup b c = .yes [("_ŠČ1", .ex (.node "Expr::Lit" [] [lf "3"]))] false ∧ sup a c = .no ∧
+    okT_tr a = false ∧ okT_tr b = true ∧ okT_tr c = true ∧ faces_tr b (stripTop c) = true ∧ presInj_tr c = true := by
+  decide
+
+/-- `presInj_tr c` (ignored children): `(T, T) ⊒ (Vec<U>, Vec<U>) ⊒ (Vec<u8>, Vec::<u8>)` but
+    `(T, T) ⋣ (Vec<u8>, Vec::<u8>)` — the two bound sub-trees differ in the ignored `::` -/
+theorem C09_trans_counterexample_presInj_ign :
+    let a : T := tup2 (.tparam "_ŠČ0") (.tparam "_ŠČ0")
+    let b : T := tup2 (vecT (lf "None") (.tparam "_ŠČ1")) (vecT (lf "None") (.tparam "_ŠČ1"))
+    let c : T := tup2 (vecT (lf "None") u8) (vecT (lf "Some") u8)
+    sup a b = .yes [("_ŠČ0", .ty (vecT (lf "None") (.tparam "_ŠČ1")))] false ∧
+    sup b c = .yes [("_ŠČ1", .ty u8)] false ∧ sup a c = .no ∧
+    okT_tr a = true ∧ okT_tr b = true ∧ okT_tr c = true ∧ faces_tr b (stripTop c) = true ∧ presInj_tr c = false := by
+  with_unfolding_all decide
+
+/-- `presInj_tr c` (wrappers): `(T, T) ⊒ ((U, U), (U, U)) ⊒ (((u8), u8), (u8, u8))` but
+    `(T, T) ⋣ (((u8), u8), (u8, u8))` -/
+theorem C09_trans_counterexample_presInj_paren :
+    let a : T := tup2 (.tparam "_ŠČ0") (.tparam "_ŠČ0")
+    let b : T := tup2 (tup2 (.tparam "_ŠČ1") (.tparam "_ŠČ1")) (tup2 (.tparam "_ŠČ1") (.tparam "_ŠČ1"))
+    let c : T := tup2 (tup2 (.node "Type::Paren" [] [u8]) u8) (tup2 u8 u8)
+    sup a b = .yes [("_ŠČ0", .ty (tup2 (.tparam "_ŠČ1") (.tparam "_ŠČ1")))] false ∧
+    sup b c = .yes [("_ŠČ1", .ty u8)] false ∧ sup a c = .no ∧
+    okT_tr a = true ∧ okT_tr b = true ∧ okT_tr c = true ∧ faces_tr b (stripTop c) = true ∧ presInj_tr c = false := by
+  with_unfolding_all decide
+
+/-- `faces_tr` (an `Ign` child of `b` facing something else) -/
+theorem C09_trans_counterexample_faces_ign :
+    let a : T := tup2 (.tparam "_ŠČ0") (.tparam "_ŠČ0")
+    let b : T := tup2 (.node "V" [] [lf "Ign"]) (.node "V" [] [lf "Ign"])
+    let c : T := tup2 (.node "V" [] [lf "A"]) (.node "V" [] [lf "B"])
+    sup a b = .yes [("_ŠČ0", .ty (.node "V" [] [lf "Ign"]))] false ∧ sup b c = .yes [] false ∧ sup a c = .no ∧
+    okT_tr a = true ∧ okT_tr b = true ∧ okT_tr c = true ∧ faces_tr b (stripTop c) = false ∧ presInj_tr c = true := by
+  decide
+
+/-- `faces_tr` (an `IgnL` child — the leading `::` of a path — facing a different one):
+    `(T, T) ⊒ (X, X) ⊒ (::X, X)` but `(T, T) ⋣ (::X, X)` -/
+theorem C09_trans_counterexample_faces_ignL :
+    let pth (lc : T) : T := .node "Path" [] [.node "IgnL" [] [lc], .node "List" [] [lf "X"]]
+    let a : T := tup2 (.tparam "_ŠČ0") (.tparam "_ŠČ0")
+    let b : T := tup2 (pth (lf "None")) (pth (lf "None"))
+    let c : T := tup2 (pth (lf "Some")) (pth (lf "None"))
+    sup a b = .yes [("_ŠČ0", .ty (pth (lf "None")))] false ∧ sup b c = .yes [] true ∧ sup a c = .no ∧
+    okT_tr a = true ∧ okT_tr b = true ∧ okT_tr c = true ∧ faces_tr b (stripTop c) = false ∧ presInj_tr c = true := by
+  with_unfolding_all decide
+
+theorem C09_trans_unconditional_false :
+    ¬ ∀ (a b c : T) (σ τ : Subst) (l₁ l₂ : Bool), sup a b = .yes σ l₁ → sup b c = .yes τ l₂ →
+      ∃ ρ l, sup a c = .yes ρ l := fun h => by
+  obtain ⟨ρ, l, hρ⟩ := h _ _ _ _ _ _ _ C09_trans_counterexample_wild.1 C09_trans_counterexample_wild.2.1
+  rw [C09_trans_counterexample_wild.2.2.1] at hρ
+  cases hρ
+
+/-- non-vacuity of `C09_trans`: `(T, T) ⊒ (Vec<U>, Vec<U>) ⊒ (Vec<Vec<u8>>, (Vec<Vec<u8>>))` — a repeated parameter,
+    ignored children, a wrapper in the target; all hypotheses hold and the three answers are as stated -/
+example :
+    let a : T := tup2 (.tparam "_ŠČ0") (.tparam "_ŠČ0")
+    let b : T := tup2 (vecT (lf "None") (.tparam "_ŠČ1")) (vecT (lf "None") (.tparam "_ŠČ1"))
+    let vv : T := vecT (lf "None") (vecT (lf "None") u8)
+    let c : T := tup2 vv (.node "Type::Paren" [] [vv])
+    okT_tr a = true ∧ okT_tr b = true ∧ okT_tr c = true ∧ faces_tr b (stripTop c) = true ∧ presInj_tr c = true ∧
+    sup a b = .yes [("_ŠČ0", .ty (vecT (lf "None") (.tparam "_ŠČ1")))] false ∧
+    sup b c = .yes [("_ŠČ1", .ty (vecT (lf "None") u8))] false ∧
+    sup a c = .yes [("_ŠČ0", .ty vv)] false := by
+  with_unfolding_all decide
+
+/-- non-vacuity with the const-argument deviation and a lifetime: `&'a Foo<N> ⊒ &'a Foo<M> ⊒ &'a Foo<3>` -/
+example :
+    let foo (arg : T) : T := .node "Type::Reference" [] [lt' "a", .node "Foo" [] [arg]]
+    let a : T := foo (.node "GenericArgument::Type" [] [.tparam "_ŠČ0"])
+    let b : T := foo (.node "GenericArgument::Type" [] [.tparam "_ŠČ1"])
+    let c : T := foo (.node "GenericArgument::Const" [] [.node "Expr::Lit" [] [lf "3"]])
+    okT_tr a = true ∧ okT_tr b = true ∧ okT_tr c = true ∧ faces_tr b (stripTop c) = true ∧ presInj_tr c = true ∧
+    sup a b = .yes [("_ŠČ0", .ty (.tparam "_ŠČ1"))] false ∧
+    sup b c = .yes [("_ŠČ1", .ex (.node "Expr::Lit" [] [lf "3"]))] false ∧
+    sup a c = .yes [("_ŠČ0", .ex (.node "Expr::Lit" [] [lf "3"]))] false := by
+  decide
+
+/-- non-vacuity with a qualified path, whose type must stay put: `(<T as Tr>::A, U) ⊒ (<T as Tr>::A, Vec<V>) ⊒
+    (<T as Tr>::A, Vec<u8>)` -/
+example :
+    let q (x : T) : T := .node "Type::Path" [] [.node "Some" [] [.node "QSelf" [] [x, .node "Atom" ["1"] []]], lf "P"]
+    let a : T := tup2 (q (.tparam "_ŠČ0")) (.tparam "_ŠČ1")
+    let b : T := tup2 (q (.tparam "_ŠČ0")) (vecT (lf "None") (.tparam "_ŠČ2"))
+    let c : T := tup2 (q (.tparam "_ŠČ0")) (vecT (lf "None") u8)
+    okT_tr a = true ∧ okT_tr b = true ∧ okT_tr c = true ∧ faces_tr b (stripTop c) = true ∧ presInj_tr c = true ∧
+    sup a b = .yes [("_ŠČ0", .identity), ("_ŠČ1", .ty (vecT (lf "None") (.tparam "_ŠČ2")))] false ∧
+    sup b c = .yes [("_ŠČ0", .identity), ("_ŠČ2", .ty u8)] false ∧
+    sup a c = .yes [("_ŠČ0", .identity), ("_ŠČ1", .ty (vecT (lf "None") u8))] false := by
+  with_unfolding_all decide
+
+end TransExamples
 
 end DI
